@@ -176,9 +176,18 @@ impl Clause {
         // solvable would be false (and we just asserted that it is not)
         let conflict = decision_tracker.assigned_value(forbidden_solvable) == Some(true);
 
+        // A solvable that constrains its own package to a version set that it does not
+        // match itself can never be installed. The clause (¬A ∨ ¬A) is an assertion and
+        // cannot be watched: both watches would be the same literal.
+        let watched_literals = if parent == forbidden_solvable {
+            None
+        } else {
+            Some([parent.negative(), forbidden_solvable.negative()])
+        };
+
         (
             Clause::Constrains(parent, forbidden_solvable, via),
-            Some([parent.negative(), forbidden_solvable.negative()]),
+            watched_literals,
             conflict,
         )
     }
